@@ -13,6 +13,7 @@ import (
 
 	"github.com/safing/portbase/api"
 	"github.com/safing/portbase/config"
+	"github.com/safing/portbase/database"
 
 	"verifharness/internal/stats"
 )
@@ -417,6 +418,64 @@ func exhaustiveEndpoints(t *testing.T, types []string) {
 		runTable(t, w, specs, filter, false, c)
 	}
 	c.flush("exhaustive_endpoints")
+}
+
+// TestExhaustiveBridgeThroughDatabase drives the real database bridge: records of
+// the "api" database are API calls made with the bridge address, which grants
+// admin. Every endpoint type x declared permission, read (Get) and write (Put);
+// keys that would leave /api/v1/ must not reach any handler.
+func TestExhaustiveBridgeThroughDatabase(t *testing.T) {
+	w := newWorld()
+	w.setDev(t, false)
+	db := database.NewInterface(&database.Options{Local: true, Internal: true})
+	n := int64(0)
+	take := func() (int, []*tok) {
+		bridgeObs.mu.Lock()
+		defer bridgeObs.mu.Unlock()
+		r, tk := bridgeObs.runs, bridgeObs.tokens
+		bridgeObs.runs, bridgeObs.tokens = 0, nil
+		return r, tk
+	}
+	check := func(what string, need int, err error) {
+		runs, toks := take()
+		n++
+		entitled := need == pDynamic || (validPerm(need) && need <= pAdmin)
+		switch {
+		case entitled && (runs != 1 || toks[0] == nil || *toks[0] != (tok{pAdmin, pAdmin})) && need != pAnyone:
+			t.Fatalf("bridge %s (declared %d): handler runs %d tokens %s err %v; want one run with the admin token", what, need, runs, fmtToks(toks), err)
+		case entitled && runs != 1:
+			t.Fatalf("bridge %s (declared %d): handler runs %d err %v; want one run", what, need, runs, err)
+		case !entitled && runs != 0:
+			t.Fatalf("bridge %s (declared %d): handler ran %d time(s) although the bridge only holds admin", what, need, runs)
+		case !entitled && err == nil:
+			t.Fatalf("bridge %s (declared %d): refused call returned no error", what, need)
+		}
+	}
+	take()
+	for _, typ := range epTypes {
+		for _, rd := range epPerms {
+			for _, wr := range epPerms {
+				key := "api:" + strings.TrimPrefix(epPath(typ, rd, wr), "/api/v1/")
+				_, err := db.Get(key)
+				check("Get "+key, rd, err)
+				req := &api.EndpointBridgeRequest{Method: http.MethodPost, Data: []byte("x")}
+				req.SetKey(key)
+				err = db.Put(req)
+				check("Put "+key, wr, err)
+			}
+		}
+	}
+	// scope: the key is joined to /api/v1/, nothing outside may be reached
+	for _, key := range []string{"api:../../verif/raw/1/1", "api:../verif/raw/1/1", "api:/../../verif/plain", "api:..", "api:../v1/../../verif/dyn"} {
+		_, err := db.Get(key)
+		runs, _ := take()
+		n++
+		if runs != 0 {
+			t.Fatalf("bridge Get %q reached a handler outside /api/v1/ (err %v)", key, err)
+		}
+	}
+	stats.CaseN(n, n, "exhaustive_bridge_through_database")
+	stats.Exhaustive("database bridge (api: records): every endpoint type x declared read/write permission via Get and Put, plus path scope escapes")
 }
 
 // ---------------------------------------------------------------- histories that need the clock
